@@ -76,8 +76,8 @@ func init() {
 	propSpecs = []*PropSpec{
 		{
 			ID:          "C01",
-			Rules:       []RuleUse{use("R-DISPATCH", "v5"), use("R-TOKEN", "v5"), use("R-TOKTAB", "v5"), use("R-REPLACE", "v5"), use("R-MOVE", "v5"), use("R-COPYISO", "v5"), use("R-TYPESTATE", "v5"), use("R-SUCCESS", "v5"), {Rule: "R-BOUNDS", Bodies: []string{"v5"}, KeyHas: []string{"(*partialArray)", "findObject", "(*partialDoc)"}}, use("R-NEGIDX", "v5"), use("R-SELF", "v5"), use("R-NULLSPELL", "v5"), use("R-EQSHAPE", "v5")},
-			Explanation: "Decided for the v5 body: R-DISPATCH (all six RFC 6902 operations reach the handler with that operation's container effects; validator table = RFC 6902 §4; verdict cannot be bypassed), R-TOKEN + R-TOKTAB (every reference token obtained by splitting a path is decoded exactly once, by a decoder whose table and order are RFC 6901's, on every route to a member lookup, insertion or removal), R-REPLACE (replace requires the target to exist), R-MOVE (move = get, remove of the same container/key, destination resolved after the removal, add of that same value), R-COPYISO (copy inserts a fresh deep duplicate, never an alias), R-TYPESTATE (a null root is held as a nil container that every later operation rejects instead of dereferencing). R-SUCCESS (every handler reports success only after performing its operation). R-BOUNDS + R-NEGIDX (the index arithmetic of the four array methods stays in range for every parsed index and both SupportNegativeIndices settings; a negative index is honoured only under the option and is an error otherwise). R-SELF (the empty reference token denotes the container as it is now — a node built over the live container — never the parse-time snapshot: copy from \"\" sees the earlier operations). R-NULLSPELL (a test verdict on a non-nil looked-up node always consults that node's content, so a null stored by add/replace — a non-nil node whose text is null — is seen as null by later test operations).",
+			Rules:       []RuleUse{use("R-DISPATCH", "v5"), use("R-TOKEN", "v5"), use("R-TOKTAB", "v5"), use("R-REPLACE", "v5"), use("R-MOVE", "v5"), use("R-COPYISO", "v5"), use("R-TYPESTATE", "v5"), use("R-SUCCESS", "v5"), {Rule: "R-BOUNDS", Bodies: []string{"v5"}, KeyHas: []string{"(*partialArray)", "findObject", "(*partialDoc)"}}, use("R-NEGIDX", "v5"), use("R-SELF", "v5"), use("R-NULLSPELL", "v5"), use("R-EQSHAPE", "v5"), {Rule: "R-ERRCHAIN", Bodies: []string{"v5"}, KeyHas: []string{"TEST-ABSENT"}}, {Rule: "R-KEYS", Bodies: []string{"v5"}, KeyHas: []string{"(*partialDoc)", "(Patch)", "emitter"}}, {Rule: "R-ABSENT", Bodies: []string{"v5"}, KeyHas: []string{"(*partialDoc)", ".equal"}}},
+			Explanation: "Decided for the v5 body: R-KEYS + R-ABSENT (an object's member list and member map stay in step through add/replace/remove/move: a member is written exactly once into the result, a replaced member — also one holding null — is not listed twice, absent and null are told apart by the comma-ok flag), R-ERRCHAIN TEST-ABSENT (the tolerance of test for an absent location covers object members only: the array lookup never reports ErrMissing, so an index outside the array fails the test), R-DISPATCH (all six RFC 6902 operations reach the handler with that operation's container effects; validator table = RFC 6902 §4; verdict cannot be bypassed), R-TOKEN + R-TOKTAB (every reference token obtained by splitting a path is decoded exactly once, by a decoder whose table and order are RFC 6901's, on every route to a member lookup, insertion or removal), R-REPLACE (replace requires the target to exist), R-MOVE (move = get, remove of the same container/key, destination resolved after the removal, add of that same value), R-COPYISO (copy inserts a fresh deep duplicate, never an alias), R-TYPESTATE (a null root is held as a nil container that every later operation rejects instead of dereferencing). R-SUCCESS (every handler reports success only after performing its operation). R-BOUNDS + R-NEGIDX (the index arithmetic of the four array methods stays in range for every parsed index and both SupportNegativeIndices settings; a negative index is honoured only under the option and is an error otherwise). R-SELF (the empty reference token denotes the container as it is now — a node built over the live container — never the parse-time snapshot: copy from \"\" sees the earlier operations). R-NULLSPELL (a test verdict on a non-nil looked-up node always consults that node's content, so a null stored by add/replace — a non-nil node whose text is null — is seen as null by later test operations).",
 			NotDecided:  "that the resulting values equal the RFC 6902 result (value-level: needs the contents of the lazily parsed byte slices); value-level agreement of equal() with RFC equality beyond the null-spelling mechanism; index semantics beyond range safety.",
 			Trusted:     commonTrusted, Assumptions: commonAssumptions,
 		},
@@ -111,8 +111,8 @@ func init() {
 		},
 		{
 			ID:          "C06",
-			Rules:       []RuleUse{{Rule: "R-GATE", Bodies: []string{"v5", "codec"}, KeyHas: []string{"Equal", "sink "}}, {Rule: "R-NIL", Bodies: []string{"v5"}, KeyHas: []string{"Equal", ".equal", "tryDoc", "tryAry", "compact", "isNull", "nextByte"}}, {Rule: "R-TYPESTATE", Bodies: []string{"v5"}, KeyHas: []string{".equal", "tryDoc", "tryAry"}}, {Rule: "R-RAW", Bodies: []string{"v5"}, KeyHas: []string{"compact", "tryDoc", "tryAry", "nextByte", "newLazyNode"}}, {Rule: "R-STALERAW", Bodies: []string{"v5"}, KeyHas: []string{".equal", "isNull", "compact", "tryDoc", "tryAry"}}, {Rule: "R-NUM", Bodies: []string{"v5"}, KeyHas: []string{"never parsed"}}, {Rule: "R-MAPORDER", Bodies: []string{"v5"}, KeyHas: []string{".equal"}}, {Rule: "R-ABSENT", Bodies: []string{"v5"}, KeyHas: []string{".equal"}}, use("R-EQSHAPE", "v5"), {Rule: "R-NULLSPELL", Bodies: []string{"v5"}, KeyHas: []string{".equal"}}},
-			Explanation: "Decided for the v5 body: R-EQSHAPE (the recursive comparison itself: every branch tests the two operands only, so no verdict depends on a counter, option or other state; strings are compared after being unescaped by the codec's own decoder, each side from its own compacted text; every computed verdict uses both operands and the scalar comparison is bytes.Equal of the two compacted texts; the recursion pairs element i with element i and member k with member k under a preceding length/size comparison that answers false, answers false whenever the recursion does, and runs over all elements/members), R-NULLSPELL (no verdict from the nil-ness of member nodes: a stored null equals a decoded null), R-GATE on both parameters of Equal with the invalid edge returning false, R-NIL + R-TYPESTATE + R-RAW + R-STALERAW over Equal, (*lazyNode).equal, tryDoc, tryAry, compact, isNull (Equal is total: null roots, nulls inside arrays and as members, an array against null never dereference a nil node; comparison never re-reads stale bytes of a parsed node), R-NUM (no numeric parsing anywhere in the library: numbers are compared as literals, so distinct literals are never equal), R-MAPORDER (the member loop of equal has no order-sensitive effect), R-ABSENT (the member comparison looks the other side up with comma-ok and tests the flag: a null member is never equal to an absent one).",
+			Rules:       []RuleUse{{Rule: "R-GATE", Bodies: []string{"v5", "codec"}, KeyHas: []string{"Equal", "sink "}}, {Rule: "R-NIL", Bodies: []string{"v5"}, KeyHas: []string{"Equal", ".equal", "tryDoc", "tryAry", "compact", "isNull", "nextByte"}}, {Rule: "R-TYPESTATE", Bodies: []string{"v5"}, KeyHas: []string{".equal", "tryDoc", "tryAry"}}, {Rule: "R-RAW", Bodies: []string{"v5"}, KeyHas: []string{"compact", "tryDoc", "tryAry", "nextByte", "newLazyNode"}}, {Rule: "R-STALERAW", Bodies: []string{"v5"}, KeyHas: []string{".equal", "isNull", "compact", "tryDoc", "tryAry"}}, {Rule: "R-NUM", Bodies: []string{"v5"}, KeyHas: []string{"never parsed"}}, {Rule: "R-MAPORDER", Bodies: []string{"v5"}, KeyHas: []string{".equal"}}, {Rule: "R-ABSENT", Bodies: []string{"v5"}, KeyHas: []string{".equal"}}, use("R-EQSHAPE", "v5"), {Rule: "R-NULLSPELL", Bodies: []string{"v5"}, KeyHas: []string{".equal"}}, {Rule: "R-ROOTDISPATCH", Bodies: []string{"v5"}, KeyHas: []string{"untrimmed text", "Equal"}}},
+			Explanation: "Decided for the v5 body: R-EQSHAPE (the recursive comparison itself: every branch tests the two operands only, so no verdict depends on a counter, option or other state; strings are compared after being unescaped by the codec's own decoder, each side from its own compacted text; every computed verdict uses both operands and the scalar comparison is bytes.Equal of the two compacted texts; the recursion pairs element i with element i and member k with member k under a preceding length/size comparison that answers false, answers false whenever the recursion does, and runs over all elements/members), R-NULLSPELL (no verdict from the nil-ness of member nodes: a stored null equals a decoded null), R-ROOTDISPATCH (no function classifies a node by a fixed-offset byte of its raw text — the operands of Equal are nodes built over the caller's bytes, leading whitespace included), R-GATE on both parameters of Equal with the invalid edge returning false, R-NIL + R-TYPESTATE + R-RAW + R-STALERAW over Equal, (*lazyNode).equal, tryDoc, tryAry, compact, isNull (Equal is total: null roots, nulls inside arrays and as members, an array against null never dereference a nil node; comparison never re-reads stale bytes of a parsed node), R-NUM (no numeric parsing anywhere in the library: numbers are compared as literals, so distinct literals are never equal), R-MAPORDER (the member loop of equal has no order-sensitive effect), R-ABSENT (the member comparison looks the other side up with comma-ok and tests the flag: a null member is never equal to an absent one).",
 			NotDecided:  "reflexivity/symmetry/transitivity and agreement with an independent deep comparison as value-level statements (R-EQSHAPE decides the pairing, coverage and provenance of the verdicts, not the contents of the byte slices); that the codec's decoder unescapes strings per RFC 8259 is decided separately (C17/C18 rules) and assumed here.",
 			Trusted:     commonTrusted, Assumptions: commonAssumptions,
 		},
@@ -125,8 +125,8 @@ func init() {
 		},
 		{
 			ID:          "C08",
-			Rules:       []RuleUse{use("R-RETSHAPE", "v5"), use("R-ERRCHAIN", "v5"), {Rule: "R-COPYLIMIT", Bodies: []string{"v5"}, KeyHas: []string{"(iii)", "(iv)"}}, use("R-SUCCESS", "v5")},
-			Explanation: "Decided for the v5 body: R-RETSHAPE (every return of the Apply family and of the functions whose result tuples they pass through has a nil document or a nil error; in the operation loop every handler's error is tested before the back edge and the non-nil edge returns (nil, that error), so no later operation runs after the first failure), R-ERRCHAIN (error identity over every error return of the six handlers and the two containers: ErrTestFailed is produced only by the test handler, by each of its comparison-verdict returns and by none of its lookup-failure returns; a test against an absent member reaches the comparison; an unreachable parent yields ErrMissing in all six handlers; an absent member yields ErrMissing in partialDoc.get/remove and every handler wraps (%w) the container's error or ErrMissing; *AccumulatedCopySizeError comes only from its constructor, called only by the copy handler), R-COPYLIMIT (iii,iv) (that error is returned exactly on the over-limit edge). R-SUCCESS (a handler returns nil only after its container effect — add/set/remove, the root replacement, the comparison for test — or through the AllowMissingPathOnRemove skip: an inapplicable operation cannot be silently accepted, so the first failing operation really ends the patch).",
+			Rules:       []RuleUse{use("R-RETSHAPE", "v5"), use("R-ERRCHAIN", "v5"), {Rule: "R-COPYLIMIT", Bodies: []string{"v5"}, KeyHas: []string{"(iii)", "(iv)"}}, use("R-SUCCESS", "v5"), {Rule: "R-DISPATCH", Bodies: []string{"v5"}, KeyHas: []string{"operation order"}}},
+			Explanation: "Decided for the v5 body: R-DISPATCH operation order (the apply function reports errors from the dispatch loop only: no other loop over the operations — a pre-scan or validation pass — leaves into an error return, so the first operation that cannot be applied decides the outcome), R-RETSHAPE (every return of the Apply family and of the functions whose result tuples they pass through has a nil document or a nil error; in the operation loop every handler's error is tested before the back edge and the non-nil edge returns (nil, that error), so no later operation runs after the first failure), R-ERRCHAIN (error identity over every error return of the six handlers and the two containers: ErrTestFailed is produced only by the test handler, by each of its comparison-verdict returns and by none of its lookup-failure returns; a test against an absent member reaches the comparison; an unreachable parent yields ErrMissing in all six handlers; an absent member yields ErrMissing in partialDoc.get/remove and every handler wraps (%w) the container's error or ErrMissing; *AccumulatedCopySizeError comes only from its constructor, called only by the copy handler), R-COPYLIMIT (iii,iv) (that error is returned exactly on the over-limit edge). R-SUCCESS (a handler returns nil only after its container effect — add/set/remove, the root replacement, the comparison for test — or through the AllowMissingPathOnRemove skip: an inapplicable operation cannot be silently accepted, so the first failing operation really ends the patch).",
 			NotDecided:  "that a patch whose operations all succeed never errors (the final marshal could fail); the 'exactly when' direction for ErrMissing beyond the 'holds when' clauses the property states.",
 			Trusted:     commonTrusted, Assumptions: commonAssumptions,
 		},
